@@ -207,7 +207,7 @@ _vbi_inline int
 vbi_unham16p			(const uint8_t *	p)
 {
 	return ((int) _vbi_hamm8_inv[p[0]])
-	  | (((int) _vbi_hamm8_inv[p[1]]) << 4);
+	  | (((int) _vbi_hamm8_inv[p[1]]) * 16);
 }
 
 extern void
